@@ -20,9 +20,10 @@ typedef struct DPlan {
     char sub[8];               /* c17 | c18 */
     int mode;                  /* 0 pre-started daemon, 1 lazy launch by the clients, 2 pre-started with 1 s idle timeout */
     int verbose;
+    int cop_missing;           /* 1: nano_cop cannot be exec'ed in this run: sessions with externs take the documented in-process fallback */
     int race;                  /* 1: the daemon is the -fsanitize=thread image and sim/race.c watches it */
     int nclients; PClient c[64];
-    int nbad; PBad b[24];
+    int nbad; PBad b[64];
 } DPlan;
 
 /* client programs: corpus modules ("arith", token) or generated heap programs ("gen<pseed>", token ignored) */
@@ -47,6 +48,8 @@ static const char *pick_prog(bool allow_big) {
     for (;;) {
         const char *p = corpus_prog((int)sim_rndn((uint32_t)corpus_nprogs()));
         if (!allow_big && strcmp(p, "bigout") == 0 && sim_rndn(3)) continue;
+        /* deeprec (C14: 4 500-slot operand stack, audited at every instruction) would eat a daemon plan's whole step budget under 30-block preemption: one client in twenty at most */
+        if ((strcmp(p, "deeprec") == 0 || strcmp(p, "bigimage") == 0) && sim_rndn(20)) continue;
         return p;
     }
 }
@@ -64,7 +67,7 @@ static void gen_knobs(bool quick) {
     K.eintr_pm = sim_rndn(4) == 0 ? (int)sim_rndn(100) : 0;
     K.zombie_delay_us = sim_rndn(2) ? (int)sim_rndn(200) : 0;
     K.stack_mode = sim_rndn(3) == 0 ? 1 + (int)sim_rndn(256) : 0;
-    K.max_steps = quick ? 3000000 : 20000000; K.max_blocks = 150000000; K.max_sim_us = 3600ull * 1000000ull;
+    K.max_steps = quick ? 3000000 : 20000000; K.max_blocks = 600000000; K.max_sim_us = 3600ull * 1000000ull;
 }
 static void plan_gen(DPlan *P, uint64_t seed, const RunOpts *o) {
     memset(P, 0, sizeof *P);
@@ -80,6 +83,7 @@ static void plan_gen(DPlan *P, uint64_t seed, const RunOpts *o) {
     if (c18 && P->mode == 2) P->mode = 0;
     if (o->sub && strcmp(o->sub, "c17idle") == 0) { P->mode = 2; strcpy(P->sub, "c17"); }
     P->verbose = sim_rndn(3) == 0;
+    P->cop_missing = !c18 && sim_rndn(8) == 0;
     P->race = sim_rndn(c18 ? 8 : 4) == 0;   /* error and abandonment paths of C18 plans are daemon code too */
     if (o->sub && strcmp(o->sub, "c17race") == 0) { P->race = 1; strcpy(P->sub, "c17"); }
     int maxc = quick ? 8 : (sim_rndn(8) == 0 ? 64 : 12);
@@ -105,14 +109,20 @@ static void plan_gen(DPlan *P, uint64_t seed, const RunOpts *o) {
         if (c18 && sim_rndn(3) == 0) c->kill_sys = 1 + (int)sim_rndn(60);
         else if (c18 && sim_rndn(2) == 0) c->copkill = 1 + (int)sim_rndn(14);   /* only matters for sessions that use externs */
     }
+    if (P->cop_missing) for (int i = 0; i < P->nclients; i++) if (strcmp(P->c[i].prog, "extern_die") == 0) { snprintf(P->c[i].prog, sizeof P->c[i].prog, "gen%u", 100000 + sim_rndn(quick ? 150 : 20000) * 64 + (unsigned)i); P->c[i].tok = 0; }
     /* a co-process that cannot be (re)started makes the VM fall back to in-process FFI by design; a program whose extern
      * kills its executor would then kill the daemon itself.  That combination is the documented fallback, not a client
      * fault: co-process kills are not injected into plans that contain extern_die. */
     if (c18) {
         P->nbad = 1 + (int)sim_rndn(quick ? 6 : 12);
+        /* one plan in ten is a long sequence of one or two kinds of misbehaviour in one daemon lifetime, followed by a well-formed
+         * client: bookkeeping that only goes wrong after the n-th failed session of a kind (slots, counters, tables) */
+        int flood = sim_rndn(10) == 0, fk1 = (int)sim_rndn(BK_HOSTILE), fk2 = (int)sim_rndn(BK_HOSTILE);
+        if (flood) { P->nbad = 18 + (int)sim_rndn(quick ? 20 : 44); if (P->nclients > 0) P->c[P->nclients - 1].arrive = (window ? window : 1) + 5000 + sim_rndn(5000); }
         for (int i = 0; i < P->nbad; i++) {
             PBad *b = &P->b[i];
             b->kind = sim_rndn(3) == 0 ? BK_HOSTILE : (int)sim_rndn(BK_HOSTILE);
+            if (flood) b->kind = sim_rndn(4) ? fk1 : fk2;
             b->arg = (int)sim_rndn(b->kind == BK_HOSTILE ? 1000000 : 1000);
             b->arrive = window ? sim_rndn((uint32_t)window + 1) : 0;
             snprintf(b->prog, sizeof b->prog, "%s", b->kind == BK_SLOWREADER || b->kind == BK_MIDOUTPUT ? "bigout" : pick_prog(true));
@@ -128,7 +138,7 @@ static void plan_gen(DPlan *P, uint64_t seed, const RunOpts *o) {
 static void plan_print(DPlan *P, uint64_t seed, Buf *b) {
     buf_printf(b, "family daemon\nsub %s\nseed %llu\n", P->sub, (unsigned long long)seed);
     knobs_print(b);
-    buf_printf(b, "mode %d\nverbose %d\nrace %d\n", P->mode, P->verbose, P->race);
+    buf_printf(b, "mode %d\nverbose %d\nrace %d\ncop_missing %d\n", P->mode, P->verbose, P->race, P->cop_missing);
     for (int i = 0; i < P->nclients; i++)
         buf_printf(b, "client prog=%s tok=%d arrive=%llu kill=%d copkill=%d\n", P->c[i].prog, P->c[i].tok, (unsigned long long)P->c[i].arrive, P->c[i].kill_sys, P->c[i].copkill);
     for (int i = 0; i < P->nbad; i++)
@@ -147,10 +157,11 @@ static bool plan_parse(DPlan *P, uint64_t *seed, const char *path) {
         else if (sscanf(line, "mode %d", &t) == 1) P->mode = t;
         else if (sscanf(line, "verbose %d", &t) == 1) P->verbose = t;
         else if (sscanf(line, "race %d", &t) == 1) P->race = t;
+        else if (sscanf(line, "cop_missing %d", &t) == 1) P->cop_missing = t;
         else if (sscanf(line, "client prog=%31s tok=%d arrive=%llu kill=%d copkill=%d", prog, &t, &a, &k, &arg) >= 4 && P->nclients < 64) {
             PClient *c = &P->c[P->nclients++]; snprintf(c->prog, sizeof c->prog, "%s", prog); c->tok = t; c->arrive = a; c->kill_sys = k; c->copkill = 0;
             { int ck = 0; if (sscanf(line, "client prog=%*s tok=%*d arrive=%*u kill=%*d copkill=%d", &ck) == 1) c->copkill = ck; }
-        } else if (sscanf(line, "bad kind=%31s arg=%d arrive=%llu prog=%31s tok=%d", kind, &arg, &a, prog, &t) == 5 && P->nbad < 24) {
+        } else if (sscanf(line, "bad kind=%31s arg=%d arrive=%llu prog=%31s tok=%d", kind, &arg, &a, prog, &t) == 5 && P->nbad < 64) {
             PBad *b = &P->b[P->nbad++]; b->kind = -1;
             for (int i = 0; i < BK_NKINDS; i++) if (strcmp(bk_name[i], kind) == 0) b->kind = i;
             if (b->kind < 0) { P->nbad--; continue; }
@@ -407,6 +418,7 @@ static void fam_run(uint64_t seed, const RunOpts *o, Result *r) {
     SimKnobs saved = K;
     sim_reset(); K = saved; sim_seed(seed ^ 0x5DEECE66Dull);
     race_reset(); race_on = sim_race_daemon = P.race != 0;
+    sim_exec_set_missing("nano_cop", false); if (P.cop_missing) sim_exec_set_missing("nano_cop", true);
     { extern int alloc_junk_on; const char *j = __real_getenv("NANOSIM_JUNK"); alloc_junk_on = j ? atoi(j) : 0; }   /* debugging aid */
     extern int audit_mode; extern uint64_t audit_stride; audit_mode = 1; audit_stride = 17;
     snprintf(sock_path, sizeof sock_path, "/tmp/nanolang_vm_%u.sock", 4242u);
@@ -437,7 +449,7 @@ static void fam_run(uint64_t seed, const RunOpts *o, Result *r) {
     ncopkill = 0; ncops_seen = 0; copkills_fired = 0;
     for (int i = 0; i < P.nclients; i++) if (P.c[i].copkill) { const uint8_t *md; size_t mn; bool ne = false; if (client_module(P.c[i].prog, P.c[i].tok, &md, &mn, &ne) && ne) copkill_at[ncopkill++] = P.c[i].copkill; }
     if (nkills || ncopkill) sim_hooks.pre_syscall = pre_syscall_hook;
-    static BadState bs[24];
+    static BadState bs[64];
     for (int i = 0; i < P.nbad; i++) {
         memset(&bs[i], 0, sizeof bs[i]); bs[i].b = &P.b[i]; bs[i].idx = i;
         char *role = malloc(16); snprintf(role, 16, "bad%d", i);
